@@ -23,6 +23,10 @@ pub struct C01 {
 }
 
 impl C01 {
+    /// Execution-only instance (no corpus, no planning tables): used when plans come from a file (replay under Miri).
+    pub fn exec_only() -> C01 {
+        C01 { corpus: Arc::new(Corpus { files: vec![], small: vec![], large: vec![] }), trunc_cum_q: vec![], trunc_cum_t: vec![] }
+    }
     pub fn new(corpus: Arc<Corpus>) -> C01 {
         let mut cq = Vec::new();
         let mut ct = Vec::new();
@@ -201,7 +205,11 @@ impl Scenario for C01 {
         });
         let tail = plan.get("tail").max(0) as usize;
         let mut acc = Fnv::new();
-        for dec in DECS {
+        let mask = plan.get_or("decs", 0x1FF);
+        for (di, dec) in DECS.into_iter().enumerate() {
+            if mask & (1 << di) == 0 {
+                continue;
+            }
             let mut dev = SimReader::new(data, &plan.sched, tail, &plan.eintr, None);
             let r = if plan.get("t") == T_BUFREADER { decode_fp(dec, BufReader::with_capacity(plan.get_or("cap", 8).max(1) as usize, DevRef(&mut dev))) } else { decode_fp(dec, &mut dev) };
             if dec == Dec::Beatmap {
